@@ -396,7 +396,7 @@ Section Sim.
     destruct Hnl as (Hsub & Hb & Hshape).
     assert (Hnl : next_line p l) by (repeat split; assumption).
     cbn [slow_loop]. unfold ltb_. rewrite (line_step_next p l Hnl). rewrite Hsub.
-    unfold g', g_step. rewrite Hns.
+    unfold g', g_step, g_step_s. rewrite Hns.
     set (matched := m_is_match M (without_terminator (c_lt cfg) l)).
     set (success := negb (Bool.eqb matched (c_invert cfg))).
     set (c0 := set_pos c (p + length l)).
@@ -591,13 +591,13 @@ Section Sim.
   Lemma fold_stopped ls g : g_stopped g = true -> fold_left (g_step cfg (m_is_match M)) ls g = g.
   Proof.
     intro H. induction ls as [|l r IH]; [reflexivity|]. cbn [fold_left].
-    unfold g_step at 2. rewrite H. exact IH.
+    unfold g_step at 2. unfold g_step_s. rewrite H. exact IH.
   Qed.
 
   Lemma g_step_off g l : g_stopped g = false ->
     g_off (g_step cfg (m_is_match M) g l) = g_off g + length l.
   Proof.
-    intro H. unfold g_step. rewrite H.
+    intro H. unfold g_step, g_step_s. rewrite H.
     destruct (negb _); [reflexivity|]. destruct (Nat.leb 1 (g_after g)); [reflexivity|].
     destruct (c_passthru cfg); reflexivity.
   Qed.
